@@ -432,6 +432,22 @@ def _mk_akai_exact(dirs):
         if not dirs:
             inv += ["forall(0, len(links), lambda k: implies(wf(links[k]), wf(subpath_index)))",
                     "implies(len(links) > 0 and previous_sector_was_directory, forall(0, len(links), lambda k: not wf(links[k])))"]
+            # Proof cuts at the two calls that install a chain of plain sectors (3rd and 4th call of add_to_sector_links in source order: the walk met
+            # a sector resolved earlier / the end-of-chain word).  Each is an obligation of its own and then a known fact, so that the step "the outer
+            # invariant holds again" no longer has to find the whole argument in one solver query (it was solved under one random seed and not under
+            # another): the walk is a functional list (equal entries have equal successors; its last entry occurs nowhere else unless that sector
+            # links to itself), hence the callee installed the links along it, hence every member of a well-formed chain on it carries its word.
+            A2L = "smpl_extract.util.fat:add_to_sector_links"
+            last_unique = "forall(0, len(links) - 1, lambda a: links[a] != links[len(links) - 1])"
+            installed = "forall(0, len(links) - 1, lambda k: sector_links[links[k]].next == links[k + 1] and not sector_links[links[k]].end)"
+            c.at_call(A2L, "forall(0, len(links) - 1, lambda a: forall(0, len(links) - 1, lambda b: implies(links[a] == links[b], links[a + 1] == links[b + 1])))",
+                      "equal-entries-have-equal-successors", when="before", ordinals=(2, 3))
+            c.at_call(A2L, f"block[subpath_index] == subpath_index or {last_unique}", "last-entry-occurs-once-unless-self-link", when="before", ordinals=(2,))
+            c.at_call(A2L, last_unique, "last-entry-occurs-once", when="before", ordinals=(3,))
+            c.at_call(A2L, f"block[subpath_index] == subpath_index or {installed}", "links-installed-along-the-walk", when="after", ordinals=(2,))
+            c.at_call(A2L, installed, "links-installed-along-the-walk", when="after", ordinals=(3,))
+            c.at_call(A2L, "forall(0, len(links) - 1, lambda k: implies(wf(links[k]), ok(links[k], block, size, sector_links[links[k]])))",
+                      "members-before-the-last-carry-their-word", when="after", ordinals=(2, 3))
         else:
             inv += [  # the walk never visits a sector twice: plain members were unvisited when reached, a directory run only moves upwards
                 "forall(0, len(links), lambda a: forall(0, len(links), lambda b: implies(a < b, links[a] != links[b])))",
